@@ -1118,6 +1118,9 @@ class MyPyAstVisitor:
             name = qualified_import.qualified_name
             if self._is_standard_library_import(name):
                 continue
+            # An import under a private alias ("from ._m import X as _X") is no reexport
+            if qualified_import.alias is not None and is_internal(qualified_import.alias):
+                continue
             self.api.reexport_map[name].add(module)
 
         for wildcard_import in module.wildcard_imports:
